@@ -34,6 +34,10 @@ type faultPlan struct {
 	// harness ends the outage - a store that is down for a while, not a single hiccup
 	persistent bool
 	down       bool
+	// shortReads: the source delivers at most 200 bytes per Read (legal: fewer than asked, no error);
+	// partialRead: the failing source Read delivers some bytes together with its error
+	shortReads  bool
+	partialRead bool
 	// concurrency monitor
 	writers    map[string]int
 	maxWriters int
@@ -100,7 +104,14 @@ func (f *faultSrcFile) Read(p []byte) (int, error) {
 		g(f.name, f.reads)
 	}
 	f.reads++
+	if f.plan.shortReads && len(p) > 200 {
+		p = p[:200]
+	}
 	if err := f.plan.call("source.Read"); err != nil {
+		if f.plan.partialRead && len(p) > 1 {
+			n, _ := f.f.Read(p[:len(p)/2])
+			return n, err
+		}
 		return 0, err
 	}
 	return f.f.Read(p)
@@ -238,6 +249,8 @@ type c11case struct {
 	Size  int    `json:"size,omitempty"`
 	Store string `json:"store,omitempty"` // minimal | full
 	Rep   int    `json:"rep,omitempty"`
+	// Source: "" (fills every buffer) | "short" (at most 200 bytes per Read) | "partial" (the failing Read delivers bytes with its error)
+	Source string `json:"source,omitempty"`
 }
 
 func c11cases(env *core.Env) []c11case {
@@ -245,6 +258,9 @@ func c11cases(env *core.Env) []c11case {
 	for _, size := range c11sizes {
 		for _, store := range []string{"minimal", "full", "minimal-writeback", "full-writeback"} {
 			cs = append(cs, c11case{Part: "fault", Size: size, Store: store})
+			if size >= 513 && (store == "minimal" || store == "full") {
+				cs = append(cs, c11case{Part: "fault", Size: size, Store: store, Source: "short"}, c11case{Part: "fault", Size: size, Store: store, Source: "partial"})
+			}
 			// special mode bits make the cache take its chmod-the-copy path
 			for _, m := range []hackpadfs.FileMode{hackpadfs.ModeSetuid | 0o755, hackpadfs.ModeSticky | 0o644, hackpadfs.ModeSetgid | hackpadfs.ModeSticky | 0o700} {
 				if size == 1 || size == 513 || size == 5000 {
@@ -361,6 +377,7 @@ func c11fault(env *core.Env, cs c11case, res *core.CaseResult) {
 		res.Inconclusive = err.Error()
 		return
 	}
+	clean.plan.shortReads = cs.Source == "short"
 	if got, err := readAll(clean.cache, name); err != nil || string(got) != string(want) {
 		res.Violate(fmt.Sprintf("C11|%s|clean-fill|wrong", cs.Store), fmt.Sprintf("a fault-free first Open of a %d-byte file delivered %d bytes, err %v", cs.Size, len(got), err), cs)
 		return
@@ -383,6 +400,7 @@ func c11fault(env *core.Env, cs c11case, res *core.CaseResult) {
 		}
 		w.plan.failAt = k
 		w.plan.persistent = persistent
+		w.plan.shortReads, w.plan.partialRead = cs.Source == "short", cs.Source == "partial"
 		var f hackpadfs.File
 		var oerr error
 		if p := core.Recover(func() { f, oerr = w.cache.Open(name) }); p != "" {
@@ -485,7 +503,13 @@ func c11concurrent(env *core.Env, cs c11case, idx int, res *core.CaseResult) {
 			if i%2 == 1 {
 				runtime.Gosched()
 			}
-			d, err := readAll(w.cache, target)
+			var d []byte
+			var err error
+			if i%3 == 2 {
+				d, err = hackpadfs.ReadFile(w.cache, target) // the helper takes whatever shortcut the FS offers for whole-file reads
+			} else {
+				d, err = readAll(w.cache, target)
+			}
 			outs[i] = outcome{d, err}
 		}(i)
 	}
@@ -591,7 +615,13 @@ func c11faultGated(env *core.Env, cs c11case, idx int, res *core.CaseResult) {
 			}
 		}
 		atomic.AddInt32(&inside, 1)
-		d, err := readAll(w.cache, name)
+		var d []byte
+		var err error
+		if i == 2 {
+			d, err = hackpadfs.ReadFile(w.cache, name)
+		} else {
+			d, err = readAll(w.cache, name)
+		}
 		outs[i] = outcome{d, err}
 		if i == 0 {
 			onceB.Do(func() { close(startB) })
